@@ -14,7 +14,7 @@ from common import Case, Finding, Report, run_driver
 ASSUMPTIONS = [
     "the image file is cut (the .bin for CDDA; the cue sheet itself is not cut)",
     "a path that exists only in the truncated run (one half of a left/right pair whose partner is lost) is compared with that sample's own audio",
-    "'lies before the cut' is decided on a superset of the bytes the file needs: partition header + allocation table, every sector of its directory, every sector/cluster of its own chain (both halves for a pair); Roland: all metadata areas precede the data",
+    "'lies before the cut' is decided on a superset of the bytes the file needs: partition header + allocation table, its own directory entry and the entries before it (byte-exact), every sector/cluster of its own chain (both halves for a pair); Roland: all metadata areas precede the data",
 ]
 
 riff_ok = None
@@ -57,15 +57,21 @@ def akai_subject(rng, full: bool) -> Subject:
     img, info = GA.serialize(disc, rng)
     exp = GA.expected_export(disc)
     byfile = {}
+    shown = {pi: GA.shown_names([v.name.upper().rstrip() for v in p.volumes]) for pi, p in enumerate(disc.partitions)}
     for f in info["files"]:
         letter = chr(ord("A") + f["part"])
-        end = f["pstart"] + max(24574, (max(f["dsecs"]) + 1) * 8192, (max(f["secs"]) + 1) * 8192)
-        byfile[(letter, f["vol"].upper().rstrip(), f["name"].upper().rstrip())] = end
+        # the directory bytes this file needs: its own entry and the ones before it (the table is scanned in order),
+        # i.e. the first (entry + 1) * 24 bytes of the directory stream - not the whole directory (S96)
+        n = (f["entry"] + 1) * 24
+        last = (n - 1) // 8192
+        dir_end = max([(s + 1) * 8192 for s in f["dsecs"][:last]] + [f["dsecs"][last] * 8192 + (n - 1) % 8192 + 1])
+        end = f["pstart"] + max(24574, dir_end, (max(f["secs"]) + 1) * 8192)
+        byfile[(letter, shown[f["part"]][f["vi"]], f["name"].upper().rstrip())] = end
     needs, singles = {}, {}
     for pi, p in enumerate(disc.partitions):
         letter = chr(ord("A") + pi)
-        for v in p.volumes:
-            vn = v.name.upper().rstrip()
+        for vi, v in enumerate(p.volumes):
+            vn = shown[pi][vi]
             for f in v.files:
                 if f.kind == "sample":
                     nm = f.name.upper().rstrip()
@@ -91,6 +97,12 @@ def akai_subject(rng, full: bool) -> Subject:
         for c in (1, 2, 3, 100, 201, 202, 203, 213, 214, 215, 216, 217, 218, 230, 231, 233, 1801, 1802, 1803, 5000, 5001, 24573, 24574, 24575):
             if 0 < ps + c < len(img):
                 cuts.add(ps + c)
+    # inside the directories: between entries and inside them
+    for f in info["files"]:
+        base = f["pstart"] + f["dsecs"][0] * 8192
+        for c in (f["entry"] * 24 + 1, f["entry"] * 24 + 23, (f["entry"] + 1) * 24, (f["entry"] + 1) * 24 + 9, (f["entry"] + 1) * 24 + 10):
+            if rng.random() < 0.5 and 0 < base + c < len(img):
+                cuts.add(base + c)
     for _ in range(20):
         cuts.add(rng.randrange(1, len(img)))
     return Subject("akai", {"x.img": img}, "x.img", "x.img", exp, needs, sorted(cuts), singles)
